@@ -258,9 +258,13 @@ def to_np(x):
     return np.asarray(x)
 
 
+WORST = {"state": 0.0, "obs": 0.0}
+
+
 def compare_results(results, ref: Ref, eval_times, tol_state, tol_obs, tags=None, state_getter=None):
-    """Return list of mismatch strings ('' if none)."""
+    """Return list of mismatch strings ('' if none).  WORST holds the largest errors seen by the last call."""
     bad = []
+    WORST["state"] = WORST["obs"] = 0.0
     tags = tags or ["occupation", "correlation_matrix", "energy", "energy_variance", "energy_second_moment"]
     for tag in tags + (["state"] if state_getter else []):
         if tag not in results.get_result_tags():
@@ -278,6 +282,7 @@ def compare_results(results, ref: Ref, eval_times, tol_state, tol_obs, tags=None
                 g = state_getter(got)
                 ov = abs(np.vdot(exp["state"], g)) if g.ndim == 1 else None
                 err = np.linalg.norm(g - exp["state"])
+                WORST["state"] = max(WORST["state"], float(err))
                 if not err <= tol_state:
                     bad.append(f"state at t={t}: |psi-ref|={err:.3e} > {tol_state:.1e}")
             else:
@@ -290,6 +295,7 @@ def compare_results(results, ref: Ref, eval_times, tol_state, tol_obs, tags=None
                     bad.append(f"{tag} at t={t}: shape {g.shape} != {e.shape}")
                     continue
                 err = np.abs(g - e).max() / scale
+                WORST["obs"] = max(WORST["obs"], float(err))
                 if not err <= tol_obs:
                     bad.append(f"{tag} at t={t}: got {np.round(g, 6).tolist()} ref {np.round(e, 6).tolist()} err={err:.3e} > {tol_obs:.1e}")
     return bad
